@@ -200,6 +200,34 @@ func run(c mon.Case) mon.Result {
 		tags = append(tags, "later_latency="+bucket(time.Since(t1)))
 	}
 	_ = laterRan
+	// finally the session is closed: Close after a loss is an operation too and must not hang or
+	// panic (judged last, so that it cannot mask anything above; the state matrix of Close is C07's)
+	if sc.Pre != nil || s.Opened {
+		closed := make(chan interface{}, 1)
+		go func() {
+			defer func() { closed <- recover() }()
+			switch {
+			case s.D != nil:
+				s.D.Close()
+			case s.N != nil:
+				s.N.Close()
+			default:
+				s.G.Close()
+			}
+		}()
+		select {
+		case x := <-closed:
+			if x != nil {
+				return viol("c06/close-panic-after-loss:"+d.Scenario, "Close after the loss panicked: %v", x)
+			}
+			obs["closed_after_loss"]++
+		case <-time.After(8 * time.Second):
+			if mon.LoadedSince(t00) {
+				return mon.Result{Verdict: mon.Inconclusive, Detail: "Close not returned, machine loaded"}
+			}
+			return viol("c06/close-hang-after-loss:"+d.Scenario, "Close has not returned 8 s after it was called on the lost connection\n%s", libStacks())
+		}
+	}
 	nt := (d.K > 0 && d.K < d.S) || d.Idle || d.Kind == "write"
 	return mon.Result{Verdict: mon.Held, NonTrivial: nt, Obs: obs, Tags: tags,
 		Sample: map[string]interface{}{"scenario": d.Scenario, "kind": d.Kind, "k": d.K, "of": d.S, "op_error": fmt.Sprint(r.err), "op_ms": el.Milliseconds(),
@@ -334,7 +362,7 @@ func init() {
 			"loss is modelled at the transport.Implementation boundary (devsim.Conn): Read returns io.EOF / a persistent error (a plain error, or *net.OpError wrapping ETIMEDOUT or ECONNRESET as the net package reports a vanished peer) from stream offset base+k on; Write returns an error from the j-th write on",
 			"'promptly' is judged as <= 1.5 s against an operation timeout of 6 s, and only while the load canary is healthy",
 			"a success is accepted only if the result equals the complete result of the fault-free dry run (k=|S| or only ignorable bytes missing)",
-			"sessions are not closed afterwards (closing a broken connection is C07); later operations are judged on error/no error only",
+			"later operations are judged on error/no error only; the session is closed at the very end and Close is judged for hang/panic only (its state matrix is C07)",
 		},
 		Exhaustive:      func(tier string) bool { return true },
 		Gen:             gen,
